@@ -84,9 +84,43 @@ def handlers(emit, repo):
             try:
                 d = copy.deepcopy(desc)
                 tad.StochasticGame(prune_states=prune, **d).solve()
-                emit({"e": "Direct", "prune": prune, "k": "Return", "etype": ""})
+                emit({"e": "Direct", "how": "fresh", "prune": prune, "k": "Return", "etype": ""})
             except Exception as exc:
-                emit({"e": "Direct", "prune": prune, "k": "Raise", "etype": type(exc).__name__})
+                emit({"e": "Direct", "how": "fresh", "prune": prune, "k": "Raise", "etype": type(exc).__name__})
+        # the same object asked twice (a refusal must not wear off), in the other mode the second time
+        for prune in (True, False):
+            try:
+                sg = tad.StochasticGame(prune_states=prune, **copy.deepcopy(desc))
+            except Exception:
+                continue                       # refused by the constructor: nothing to ask twice
+            try:
+                sg.solve()
+            except Exception:
+                pass
+            try:
+                sg.prune_states = not prune
+                sg.solve()
+                emit({"e": "Direct", "how": "again", "prune": not prune, "k": "Return", "etype": ""})
+            except Exception as exc:
+                emit({"e": "Direct", "how": "again", "prune": not prune, "k": "Raise", "etype": type(exc).__name__})
+        # an object that was solved while its description was fine; the caller then edits the
+        # description in place into the malformed one and solves again
+        try:
+            good = copy.deepcopy(base)
+            sg = tad.StochasticGame(prune_states=True, **good)
+            sg.solve()
+            turned = all(isinstance(desc[k], list) for k in ("rewards", "players", "transition_list", "final_states"))
+            if turned:
+                bad = copy.deepcopy(desc)
+                for k in ("rewards", "players", "transition_list", "final_states"):
+                    good[k][:] = bad[k]
+                try:
+                    sg.solve()
+                    emit({"e": "Direct", "how": "turned", "prune": True, "k": "Return", "etype": ""})
+                except Exception as exc:
+                    emit({"e": "Direct", "how": "turned", "prune": True, "k": "Raise", "etype": type(exc).__name__})
+        except Exception:
+            pass                                   # the base game is the harness's business, not a verdict
         try:
             gd = {"good_first": copy.deepcopy(base), "bad": copy.deepcopy(desc), "good_last": copy.deepcopy(base)}
             out = cr.run_games(gd)
